@@ -188,44 +188,71 @@ open Cuke
 
 /-! ## C20: tracing attribution on the event stream of a real run -/
 
-/-- message id = scenario * 10000 + step * 100 + k -/
-def msgScen (m : Nat) : Nat := m / 10000
-def msgStep (m : Nat) : Nat := (m % 10000) / 100
-def msgK (m : Nat) : Nat := m % 100
+/-- message id = scenario * 10^7 + step * 10^5 + k; pseudo-steps 98 / 99 = before / after hook -/
+def msgScen (m : Nat) : Nat := m / 10000000
+def msgStep (m : Nat) : Nat := (m % 10000000) / 100000
+def msgK (m : Nat) : Nat := m % 100000
 
-/-- walk the events of ONE attempt: logs of step `i` must lie between `step i started` and its result,
-    numbered 0..n-1 in order, exactly once -/
-def attemptLogsOk (scen : Nat) (plan : List (Nat × Nat × Nat)) (evs : List ScenEv) : Option String :=
-  let r := evs.foldl (fun (acc : Option Nat × Nat × Option String) e =>
-    -- acc = (open step, next expected k, error)
-    match acc.2.2 with
+structure LogAcc where
+  /-- the step / hook that has Started and not yet reported its result -/
+  cur : Option Nat := none
+  nxt : Nat := 0
+  err : Option String := none
+  /-- a step whose messages all contain the framing marker delivered none of them (finding F-C20b) -/
+  known : Bool := false
+  /-- after-hook logs seen so far in this attempt (inside or — finding F-C20c — before its bracket) -/
+  afterSeen : Nat := 0
+  /-- an after-hook log was delivered before the After-hook Started event (finding F-C20c) -/
+  early : Bool := false
+
+/-- walk the events of ONE attempt: logs of step `i` must lie between `step i started` and its result
+    (hooks likewise), numbered 0..n-1 in order, exactly once -/
+def attemptLogs (scen : Nat) (plan : List (Nat × Nat × Nat)) (marked : List (Nat × Nat)) (evs : List ScenEv) : LogAcc :=
+  let planned (i : Nat) : Nat := ((plan.find? (fun p => p.1 == scen && p.2.1 == i)).map (·.2.2)).getD 0
+  let close (acc : LogAcc) (i : Nat) : LogAcc :=
+    if acc.cur == some i && acc.nxt == planned i then { acc with cur := none, nxt := 0 }
+    else if acc.cur == some i && acc.nxt == 0 && marked.contains (scen, i) then { acc with cur := none, nxt := 0, known := true }
+    else
+      let msg := s!"step {i} of scenario {scen}: {acc.nxt} logs delivered before its result, expected {planned i}"
+      { acc with cur := none, nxt := 0, err := some msg }
+  evs.foldl (fun (acc : LogAcc) e =>
+    match acc.err with
     | some _ => acc
     | none =>
       match e with
-      | .step i .started => (some i, 0, none)
-      | .step i _ =>
-        let n := ((plan.find? (fun p => p.1 == scen && p.2.1 == i)).map (·.2.2)).getD 0
-        if acc.1 == some i && acc.2.1 == n then (none, 0, none)
-        else (none, 0, some s!"step {i} of scenario {scen}: {acc.2.1} logs delivered before its result, expected {n}")
+      | .step i .started => { acc with cur := some i, nxt := 0 }
+      | .hook .before .started => { acc with cur := some 98, nxt := 0 }
+      | .hook .after .started => { acc with cur := some 99, nxt := acc.afterSeen }
+      | .step i _ => close acc i
+      | .hook .before _ => close acc 98
+      | .hook .after _ => close acc 99
       | .log m =>
-        match acc.1 with
-        | none => (acc.1, acc.2.1, some s!"log {m} outside any step of scenario {scen}")
+        -- the After hook RUNS before its Started event is emitted (run_after_hook / emit_after_hook_events):
+        -- its logs arrive early; they must still be this scenario's, complete and in order (F-C20c)
+        if msgStep m == 99 && acc.cur != some 99 then
+          if msgScen m != scen then { acc with err := some s!"log of scenario {msgScen m} attributed to scenario {scen}" }
+          else if msgK m != acc.afterSeen then { acc with err := some s!"after-hook log {m} out of order / duplicated / lost (expected k = {acc.afterSeen})" }
+          else { acc with afterSeen := acc.afterSeen + 1, early := true }
+        else
+        match acc.cur with
+        | none => { acc with err := some s!"log {m} outside any step or hook of scenario {scen}" }
         | some i =>
-          if msgScen m != scen then (acc.1, acc.2.1, some s!"log of scenario {msgScen m} attributed to scenario {scen}")
-          else if msgStep m != i then (acc.1, acc.2.1, some s!"log of step {msgStep m} delivered inside step {i}")
-          else if msgK m != acc.2.1 then (acc.1, acc.2.1, some s!"log {m} out of order / duplicated / lost (expected k = {acc.2.1})")
-          else (acc.1, acc.2.1 + 1, none)
-      | _ => acc) (none, 0, none)
-  r.2.2
+          if msgScen m != scen then { acc with err := some s!"log of scenario {msgScen m} attributed to scenario {scen}" }
+          else if msgStep m != i then { acc with err := some s!"log of step {msgStep m} delivered inside step {i}" }
+          else if msgK m != acc.nxt then { acc with err := some s!"log {m} out of order / duplicated / lost (expected k = {acc.nxt})" }
+          else { acc with nxt := acc.nxt + 1 }
+      | _ => acc) {}
 
-def monC20 (plan : List (Nat × Nat × Nat)) (evs : List Ev) : String :=
+def monC20 (plan : List (Nat × Nat × Nat)) (marked : List (Nat × Nat)) (evs : List Ev) : String :=
   let keys := attKeys evs
-  let bad := keys.findSome? (fun κ =>
-    attemptLogsOk κ.1.scen plan ((projAtt κ evs).filterMap (fun e => match e with | .scen _ _ se => some se | _ => none)))
-  match bad with
+  let accs := keys.map (fun κ =>
+    attemptLogs κ.1.scen plan marked ((projAtt κ evs).filterMap (fun e => match e with | .scen _ _ se => some se | _ => none)))
+  match accs.findSome? (·.err) with
   | some m => s!"!monitor NEW c20: {m}"
   | none =>
     if evs.getLast? != some Ev.finished then "!monitor NEW c20: stream did not end with run-Finished"
-    else "ok"
+    else
+      let ids := (if accs.any (·.known) then ["F-C20b"] else []) ++ (if accs.any (·.early) then ["F-C20c"] else [])
+      if ids.isEmpty then "ok" else "!monitor " ++ " ".intercalate ids
 
 end Cuke.Mon
